@@ -40,12 +40,24 @@ def key4_equal(k1, k2, ip):
     return zand(*[ip.values_eq(a, b) for a, b in zip(k1[:-1], k2[:-1])])
 
 
+def opaque_object(vc, name):
+    """an argument that is not an Index: printed text (Int coded) and hash"""
+    return Struct("OpaqueKeyArg", _str=Sym(vc.fresh_int(name + "_text")), _hash=Sym(vc.fresh_int(name + "_hash")))
+
+
+C.STRUCT_ISINSTANCE["OpaqueKeyArg"] = lambda ip, v, cls: False
+
+
 @register
 class SortIdxCanonical(Contract):
     key = "adcgen.indices:sort_idx_canonical"
     props = ["C06", "C19"]
 
     def setup(self, vc):
+        if vc.choose(2, "argument") == 1:
+            # not an Index: the placeholder objects sympy substitutes during
+            # subs(..., simultaneous=True) - all of them print the same
+            return {"idx": opaque_object(vc, "x"), "_other": opaque_object(vc, "y")}
         return {"idx": new_named_index(vc, "i"), "_other": new_named_index(vc, "j")}
 
     def fresh_result(self, vc, a):
@@ -71,6 +83,11 @@ class SortIdxCanonical(Contract):
         if not isinstance(result, tuple) or len(result) < 2:
             return [("key-is-a-tuple-with-the-hash-last", False)]
         r2 = ip.run_body(self.key, {"idx": a["_other"]})
+        if isinstance(a["idx"], Struct) and a["idx"].cls == "OpaqueKeyArg":
+            same = zand(*[ip.values_eq(x, y) for x, y in zip(result, r2)]) if len(result) == len(r2) else False
+            return [("objects-that-are-not-indices-get-different-keys-unless-text-and-hash-coincide",
+                     z3.Implies(term(same), z3.And(a["idx"].f["_str"].t == a["_other"].f["_str"].t,
+                                                   a["idx"].f["_hash"].t == a["_other"].f["_hash"].t)))]
         return [
             ("key-without-hash-is-injective-on-registered-indices",
              z3.Implies(term(key4_equal(result, r2, ip)),
